@@ -175,6 +175,15 @@ fn c18_round(ctx: &Ctx, out: &mut Out, rng: &mut Rng, k: u64) {
         cfg.fault_percentage = Some(*rng.pick(&[1u32, 10, 50]));
         out.obs("rounds_with_fault_injection", 1);
     }
+    // every ninth round: transient receive errors inside the server (every K-th recvfrom() fails
+    // with ENOBUFS without consuming a datagram, injected by an LD_PRELOAD shim). Nothing is lost
+    // by such an error, so every request must still be answered exactly once.
+    let fshim = ctx.bins.join("faultshim.so");
+    if k % 9 == 4 && fshim.exists() && std::env::var("RTVERIF_WRAP_SERVER").is_err() && ctx.mode.is_empty() {
+        let every = rng.range(3, 40);
+        cfg.extra_env = vec![("LD_PRELOAD".into(), fshim.display().to_string()), ("RTVERIF_FAULT_RECVFROM_EVERY".into(), every.to_string())];
+        out.obs("rounds_with_injected_receive_errors", 1);
+    }
     let Some(mut sp) = start_server(ctx, out, &cfg, &format!("c18-{}", k), pin) else { return };
     let port = sp.cfg.port;
     let health_stop = Arc::new(AtomicBool::new(false));
